@@ -23,7 +23,7 @@ ASSUMPTIONS = ["monodisperse spherically symmetric models: sphere, core_shell_sp
                "q -> 0 equality is checked with error bound (q*size)^2"]
 REQUIRED_MONITORS = ["F1sq_le_F2", "I_equals_scale_F2_over_V", "lowq_equality_mono", "spherical_equality_mono",
                      "volume_sphere_mode", "modes_positive_finite"]
-REQUIRED_BUCKETS = {"quick": ["pd:off", "pd:on", "mesh>100", "mode:volume-sphere", "hollow", "lane:asan", "zero-default-length-switched-on"]}
+REQUIRED_BUCKETS = {"quick": ["pd:off", "pd:on", "mesh>100", "mode:volume-sphere", "hollow", "lane:asan", "zero-default-length-switched-on", "mesh-crosses-validity-condition"]}
 REQUIRED_BUCKETS["thorough"] = REQUIRED_BUCKETS["quick"]
 SPHERICAL = ["sphere", "core_shell_sphere", "fuzzy_sphere", "core_multi_shell", "onion", "spherical_sld", "vesicle",
              "multilayer_vesicle"]
@@ -79,6 +79,18 @@ def run_case(case, rec):
             if w > 0:
                 sas.add_pd(pars, p, ["gaussian", "schulz", "lognormal"][int(rng.integers(3))], n, w, 2.5)
                 meshn *= n
+    VB = {"barbell": ("radius_bell", "radius"), "capped_cylinder": ("radius_cap", "radius")}
+    if name in VB and k % 2 == 1:
+        # a dispersity mesh that crosses the model's validity condition (bell/cap radius >= cylinder radius):
+        # invalid points take no part in any of the averages
+        big, small = VB[name]
+        pars[big] = pars[small]*1.03
+        for kk in [kk for kk in pars if kk.endswith(("_pd", "_pd_n", "_pd_nsigma", "_pd_type"))]:
+            del pars[kk]
+        for nm in (big, small):
+            sas.add_pd(pars, i.parameters[nm], "gaussian", 5, 0.08, 2.0)
+        pd_on, meshn = True, 25
+        rec.bucket("mesh-crosses-validity-condition")
     rec.bucket("pd:on" if pd_on and meshn > 1 else "pd:off", "lane:" + case.get("lane", "plain"))
     if meshn > 100:
         rec.bucket("mesh>100")
